@@ -14,6 +14,7 @@
 # under the License.
 
 import abc
+import copy
 import six
 from six.moves import xrange
 import struct
@@ -3583,7 +3584,7 @@ def convert_template_attribute_to_attributes(value):
         attribute_tag = enums.convert_attribute_name_to_tag(
             attribute.attribute_name.value
         )
-        attribute_value = attribute.attribute_value
+        attribute_value = copy.copy(attribute.attribute_value)
         attribute_value.tag = attribute_tag
         attribute_values.append(attribute_value)
 
